@@ -229,6 +229,10 @@ func vRunCacheCase(t *testing.T, cs *vCacheCase) []string {
 				}
 			case "est":
 				res = vSetEstimate(c, vu(op[1]), vi(op[2]))
+			case "estcheck":
+				c.cachePolicy.Lock()
+				res = fmt.Sprint(c.cachePolicy.admit.Estimate(vu(op[1])))
+				c.cachePolicy.Unlock()
 			case "dump":
 				res = vDumpCache(c)
 			default:
